@@ -30,6 +30,7 @@ import (
 	"fmt"
 	"os"
 	"os/exec"
+	"runtime/debug"
 	"runtime/pprof"
 	"sort"
 	"strconv"
@@ -106,6 +107,9 @@ func buildSpace(thorough bool) *space {
 	try("I1-unsigned-params", i1, true)
 	try("I3-unsigned-params-min", pktgen.Desc{Interest: true, Name: two, PaySize: 3, Signer: -1}, true)
 	for si, s := range pktgen.Signers() {
+		if s.FailsToSign {
+			continue // only used as predecessors in the signer-history pass
+		}
 		di := i1
 		di.Signer = si
 		try("I1+"+s.Name, di, primaryModes["I+"+s.Name])
@@ -657,6 +661,11 @@ func evalCase(s *space, idx int, startBit int, careful bool, thorough bool, dead
 			if len(hp) <= 200 {
 				for i := 0; i < len(hp); i++ {
 					for j := i + 1; j < len(hp); j++ {
+						// quick tier, deviated shapes: the second and third cut are at most
+						// 3 element offsets apart (all pairs for the base shapes and in thorough)
+						if !thorough && len(c.Devs) > 0 && j > i+3 {
+							break
+						}
 						if hp[i] > root.VStart {
 							trySeg(root.VStart, hp[i], hp[j])
 						}
@@ -932,9 +941,177 @@ func evalSweep(s *space, idx int) {
 	}
 }
 
+// ---------------------------------------------------------------------------------------------
+// signer histories: hidden state across signing calls in one process
+
+type hsym struct {
+	mode     int
+	interest bool
+}
+
+func (h hsym) String() string {
+	k := "Data"
+	if h.interest {
+		k = "Interest"
+	}
+	return pktgen.Signers()[h.mode].Name + "/" + k
+}
+
+// historyMain enumerates, per signer family, every ordered pair of signing calls (mode x packet
+// kind, over ALL modes of the family incl. the key variants and the unusable-key signers), once
+// with one signer object per mode shared by the calls and once with a fresh object per call, and
+// every triple that contains one failing call (unusable key) before or between two other calls.
+// Every packet that gets built must decode, cover what its signer was handed and verify - right
+// away and again after the whole sequence. It runs single-threaded with the collector switched
+// off inside a sequence, so that pooled per-process state (sync.Pool) is handed from one call to
+// the next on every run.
+func historyMain() {
+	two := []pktgen.Comp{{Typ: 8, Len: 1}, {Typ: 8, Len: 2}}
+	stat := map[string]int64{}
+	defer func() {
+		emit(msg{T: "stat", Stat: stat})
+		emit(msg{T: "done"})
+	}()
+	type built struct {
+		b    *pktgen.Built
+		sym  hsym
+		pred string
+	}
+	// lastCall / failedSince describe the calls made so far in this process (they carry over from one
+	// sequence to the next: hidden state does too)
+	lastCall, failedSince := "nothing", false
+	var recent []string // the last calls made in this process, oldest first
+	check := func(fam, seq string, x built, when string) bool {
+		b := x.b
+		late := append([]byte(nil), b.Wire.Join()...)
+		o := decode(b.Desc.Interest, enc.NewBufferReader(late))
+		stat["decodes"]++
+		stat["history_packet_checks"]++
+		problem := ""
+		switch {
+		case !bytes.Equal(late, b.Bytes):
+			problem = "has different bytes " + when
+		case !o.ok:
+			problem = "does not decode " + when
+		case !bytes.Equal(o.cov.Join(), b.Rec.Covered) || !bytes.Equal(b.SigCov.Join(), b.Rec.Covered):
+			problem = "covers other bytes than its signer was handed " + when
+		case b.SignerSp.Validate != nil && !validate(b.SignerSp, o):
+			problem = "is rejected by the matching validator " + when
+		}
+		if problem == "" {
+			return true
+		}
+		clause := "C12.cover"
+		if strings.Contains(problem, "validator") {
+			clause = "C12.accept"
+		}
+		emit(msg{T: "viol", Clause: clause, Key: fmt.Sprintf("signer history (%s): a packet signed after %s %s", fam, x.pred, problem),
+			Detail: fmt.Sprintf("earlier calls in this process: %s; current sequence: %s; the packet of call %s", strings.Join(recent, " -> "), seq, x.sym),
+			Replay: map[string]any{"history": seq, "case_index": 0, "bytes": hexCap(b.Bytes)}})
+		return false
+	}
+	runSeq := func(fam string, syms []hsym, shared bool) {
+		stat["history_sequences"]++
+		var pool *pktgen.SignerPool
+		pol := "a fresh signer object per call"
+		if shared {
+			pool = pktgen.NewSignerPool()
+			pol = "one signer object per mode"
+		}
+		var names []string
+		for _, y := range syms {
+			names = append(names, y.String())
+		}
+		seq := pol + ": " + strings.Join(names, " -> ")
+		old := debug.SetGCPercent(-1)
+		defer debug.SetGCPercent(old)
+		var done []built
+		for i, y := range syms {
+			pred := lastCall
+			if failedSince {
+				pred = "a FAILED signing call of a " + fam + " signer (no successful signing call since)"
+			}
+			d := pktgen.Desc{Interest: y.interest, Name: two, PaySize: 3, Signer: y.mode}
+			b := pktgen.BuildWith(&d, pool)
+			stat["history_calls"]++
+			this := ""
+			switch {
+			case b.Panic != "":
+				this = "a panicking call"
+			case b.Err != nil && b.Rec != nil && b.Rec.Asked:
+				stat["history_failed_signing_calls"]++
+				this = "a FAILED signing call of a " + fam + " signer"
+				failedSince = true
+			case b.Err != nil:
+				stat["history_api_refused_calls"]++
+				this = "a build the API refused"
+			default:
+				if b.Rec != nil && b.Rec.Asked {
+					x := built{b, y, pred}
+					if check(fam, seq, x, "right after signing") {
+						done = append(done, x)
+					}
+					failedSince = false
+				}
+				switch {
+				case shared:
+					this = "a successful call (one signer object per mode)"
+				default:
+					this = "a successful call (fresh signer objects)"
+				}
+			}
+			_ = i
+			recent = append(recent, y.String()+" ["+strings.SplitN(this, " (", 2)[0]+"]")
+			if len(recent) > 4 {
+				recent = recent[1:]
+			}
+			lastCall = this
+		}
+		for _, x := range done {
+			check(fam, seq, x, "after the whole sequence")
+		}
+	}
+	for _, fam := range []string{"sha256", "hmac", "ecdsa", "rsa"} {
+		var all, failing, good []hsym
+		for mi, sp := range pktgen.Signers() {
+			if sp.Family != fam {
+				continue
+			}
+			for _, in := range []bool{false, true} {
+				y := hsym{mi, in}
+				all = append(all, y)
+				if sp.FailsToSign {
+					failing = append(failing, y)
+				} else {
+					good = append(good, y)
+				}
+			}
+		}
+		for _, shared := range []bool{true, false} {
+			for _, a := range all {
+				for _, b := range all {
+					runSeq(fam, []hsym{a, b}, shared)
+				}
+			}
+		}
+		for _, f := range failing {
+			for _, a := range good {
+				for _, b := range good {
+					runSeq(fam, []hsym{f, a, b}, true)
+					runSeq(fam, []hsym{a, f, b}, true)
+				}
+			}
+		}
+	}
+}
+
 func childMain() {
 	out = bufio.NewWriterSize(os.Stdout, 1<<16)
 	defer out.Flush()
+	if strings.HasPrefix(os.Getenv("C12_WORKER"), "history") {
+		historyMain()
+		return
+	}
 	if pf := os.Getenv("C12_CPUPROFILE"); pf != "" {
 		f, _ := os.Create(pf)
 		pprof.StartCPUProfile(f)
@@ -1001,12 +1178,18 @@ func replayMain(file string) {
 			Next string `json:"next_case"`
 		} `json:"replay"`
 	}
-	if json.Unmarshal(raw, &r) != nil || r.Replay.Case == "" {
+	if json.Unmarshal(raw, &r) != nil || (r.Replay.Case == "" && !strings.Contains(string(raw), `"history"`)) {
 		report.Fatal("replay %s: no case label", file)
 	}
 	os.Setenv("C12_ONLY_NEXT", r.Replay.Next)
+	if strings.Contains(string(raw), `"history"`) {
+		os.Setenv("C12_WORKER_MODE", "history")
+	}
 	cmd := exec.Command("bash", "-c", `ulimit -v 3000000; exec "$0"`, os.Args[0])
 	cmd.Env = append(os.Environ(), "C12_WORKER=0/1", "C12_ONLY="+r.Replay.Case, "C12_DEADLINE=9999999999")
+	if os.Getenv("C12_WORKER_MODE") == "history" {
+		cmd.Env = append(os.Environ(), "C12_WORKER=history/1", "GOMAXPROCS=1")
+	}
 	outb, _ := cmd.Output()
 	again, seen := false, map[string]bool{}
 	for _, line := range strings.Split(string(outb), "\n") {
@@ -1083,7 +1266,11 @@ func main() {
 		restarts := 0
 		for {
 			cmd := exec.Command("bash", "-c", `ulimit -v 3000000; exec "$0"`, os.Args[0])
-			cmd.Env = append(os.Environ(), fmt.Sprintf("C12_WORKER=%d/%d", shard, W), "C12_RESUME="+resume, "C12_CAREFUL="+careful,
+			worker := fmt.Sprintf("%d/%d", shard, W)
+			if shard < 0 {
+				worker = "history/1"
+			}
+			cmd.Env = append(os.Environ(), "C12_WORKER="+worker, "C12_RESUME="+resume, "C12_CAREFUL="+careful,
 				fmt.Sprintf("C12_DEADLINE=%d", deadline.Unix()), "GOMAXPROCS=1", "GOGC=300", "GOMEMLIMIT=600MiB") // single-threaded workers; decoding allocates a lot of short-lived garbage
 			var stderr bytes.Buffer
 			cmd.Stderr = &stderr
@@ -1174,7 +1361,7 @@ func main() {
 		}
 	}
 	var wg sync.WaitGroup
-	for sh := 0; sh < W; sh++ {
+	for sh := -1; sh < W; sh++ { // -1: the signer-history pass
 		wg.Add(1)
 		go func(sh int) { defer wg.Done(); runShard(sh) }(sh)
 	}
@@ -1219,8 +1406,9 @@ func main() {
 			"primary_modes":        s.primary,
 			"key_material":         fmt.Sprintf("besides the default keys: HMAC keys of %v bytes (around the SHA-256 digest and block sizes) for the Data and the Interest HMAC signer, a second ECDSA P-256 key and a second RSA-2048 key, each on the four base shapes (all clauses incl. every-bit tampering)", pktgen.HmacKeyLens),
 			"outer_length_sweep":   "4 base shapes x every ECDSA mode x payload sizes putting the ESTIMATED outer length on 250..258 and 65533..65540; each case built until 3 different signature lengths were seen or 24 builds; cover+accept on every build (counters sweep_*)",
+			"signer_histories":     "per signer family (sha256, hmac, ecdsa, rsa): every ordered pair of signing calls over all modes of the family (incl. key variants and the RSA-384 signers whose every signing call fails) x {Data, Interest}, with one signer object per mode and with a fresh object per call, plus every triple with one failing call first or in the middle; each built packet checked (decode, cover, validator) right after signing and after the sequence; single-threaded, GC off inside a sequence",
 			"delayed_verification": "each worker keeps ONE signer object per mode; the un-joined Wire of the previous packet a signer object signed is joined, decoded, compared with what the signer was handed and validated only after the same object signed the next packet",
-			"segmentation":         "C12.cover: every 1-cut (packets >1200 B: cuts within 2 bytes of element offsets), every 2-cut for packets <=100 B (thorough, <=1 deviation: <=400 B) else all pairs of element offsets, every 3-cut for packets <=56 B (thorough, <=1 deviation: <=112 B) else outer-header-end + every pair of element offsets",
+			"segmentation":         "C12.cover: every 1-cut (packets >1200 B: cuts within 2 bytes of element offsets), every 2-cut for packets <=100 B (thorough, <=1 deviation: <=400 B) else all pairs of element offsets, every 3-cut for packets <=56 B (thorough, <=1 deviation: <=112 B) else outer-header-end + every pair of element offsets (quick tier, deviated shapes: pairs at most 3 offsets apart)",
 			"tamper_decode_paths":  "every flipped packet is decoded from contiguous bytes and from 2 segments cut (a) in the middle and (b) right before the ApplicationParameters (Interest) / SignatureInfo (Data) element; accepted by any path counts as accepted",
 			"tamper":               "every bit of the signed portion, SignatureValue element, ApplicationParameters element and digest component when these total <=700 bytes; above: every bit of the bytes within 4 of an element boundary and one bit of every 251st (thorough, sha256/hmac/unsigned: 7th) other byte; P-521 (verification ~1 ms): quick tier base shapes only with bits 0 and 7 of every byte, thorough tier <=1-deviation shapes with every bit",
 		},
